@@ -106,7 +106,7 @@ fn dedent(width: usize, items: &mut PrintItems) {
 fn space_before_comment(cst: &Cst<'_>, span: &Span, items: &mut PrintItems, global: bool) {
     for c in cst.source()[..span.start].bytes().rev() {
         match c {
-            b' ' => {}
+            b' ' | b'\t' | b'\r' | b'\x0c' => {}
             b'\n' => {
                 if !global {
                     items.push_signal(Signal::NewLine);
